@@ -20,7 +20,10 @@ runtime of the Lean driver (lean/Driver/Launcher.lean, `iterations`):
   WaitProc(n)   - run - s2             outputs {'v': n}            (`run` -> Wait(s2); the process resumes itself)
   BadCtor(n)    constructor raises RuntimeError
 """
-import plumpy
+from harness import common
+
+common.ensure_repo_on_path()  # plumpy must come from $PLUMPY_REPO, whoever imports this module first
+import plumpy  # noqa: E402
 
 TRACE = []
 
